@@ -339,6 +339,9 @@ func runC05(c *Ctx) {
 		}), "go receiveRoutine", goRecv)
 		c.AtMostOncePerPath(fn, "go receiveRoutine", goRecv)
 	}
+	// imported from C15: the end-height search and the replay/repair path decide whether the unfinished height is replayed
+	searchRules(c)
+	replayRules(c)
 	c.advisoryDroppedErrors()
 }
 
